@@ -103,7 +103,7 @@ OFFS = [250, 1250, 2250, 3250, 5250, -1000, -2750]
 TIMEOUTS = [0, 0, 500, 1500, 2500, 4500, 6500]
 HOLDS = [750, 1750, 2750]
 SRES = {"T": "STrue", "F": "SFalse", "X": "SRaise"}
-EXC_KIND = {"ValueError": "EState", "NameError": "EEvent", "SyntaxError": "ESyntax"}
+EXC_KIND = {"ValueError": "EState", "NameError": "EEvent", "KeyError": "EEvent", "SyntaxError": "ESyntax"}
 
 
 def _tail(case):
@@ -111,9 +111,13 @@ def _tail(case):
     return max([o for o in (case.get("tt") or [])] + [st.get("hold") or 0, case.get("to") or 0, 0]) + 1000
 
 
-def _mk(sub, st=None, tt=None, ev=None, to=None, pre=None, hist=None, cancel=None, how="cancel", badexpr=None, others=None):
+def _mk(sub, st=None, tt=None, ev=None, to=None, pre=None, hist=None, cancel=None, how="cancel", badexpr=None, others=None,
+        again=0):
+    if ev is not None:
+        ev = dict(ev)
+        ev.setdefault("chan", "event")
     c = {"sub": sub, "st": st, "tt": tt, "ev": ev, "to": to, "badexpr": badexpr, "pre": pre or [], "hist": hist or [],
-         "cancel": cancel, "how": how, "others": others or []}
+         "cancel": cancel, "how": how, "others": others or [], "again": again}
     c["tail"] = _tail(c)
     return c
 
@@ -135,14 +139,17 @@ def _rand_case(rng):
     tt = None
     if rng.random() < 0.45:
         tt = [rng.choice(OFFS) for _ in range(rng.choice([1, 1, 2, 3]))]
-    ev = {"filter": rng.random() < 0.6} if rng.random() < 0.5 else None
+    ev = {"filter": rng.random() < 0.6, "chan": rng.choice(["event", "event", "webhook", "mqtt"])} if rng.random() < 0.5 else None
+    again = rng.choice([1, 1, 2]) if rng.random() < 0.3 else 0
     others = None
-    if ev is not None and rng.random() < 0.3:
+    if ev is not None and ev["chan"] == "event" and rng.random() < 0.3:
         others = [o for o in ("wmut", "w2", "fnkw") if rng.random() < 0.6] or ["wmut"]
     to = rng.choice(TIMEOUTS) if rng.random() < 0.45 else None
     badexpr = None
     if rng.random() < 0.05 and (st is None or (st["cn"] is False and st["hf"] is None)):
-        badexpr = rng.choice(["mqtt", "webhook"])
+        # the unparsable condition must come after the awaited channel in the legacy prologue (event, mqtt, webhook)
+        chan = ev["chan"] if ev else "event"
+        badexpr = {"event": rng.choice(["mqtt", "webhook"]), "mqtt": "webhook", "webhook": None}[chan]
     kinds = ["U", "O"]
     if st is not None:
         kinds += ["T"] * 5 + ["F"] * 5 + ["I"] * 3 + ["X"]
@@ -181,7 +188,7 @@ def _rand_case(rng):
     if rng.random() < 0.35:
         cancel = rng.choice([0] + [125 + 250 * i for i in range(0, (t + 3000) // 250)])
         how = rng.choice(["cancel", "unique"])
-    return _mk(sub, st, tt, ev, to, pre, hist, cancel, how, badexpr, others)
+    return _mk(sub, st, tt, ev, to, pre, hist, cancel, how, badexpr, others, again)
 
 
 def _occ(case, k, kind):
@@ -215,20 +222,23 @@ class WaitStream(Stream):
             "qualifying or a cancellation after the call; state_hold_false (0/0.5/1.5/2.5 s) cases have several false/true "
             "alternations with short and long false periods, combined with state_hold and timeout; cases with 1-3 concurrent "
             "listeners of the awaited event type (a waiter editing its dict, a filtered waiter clearing it, an @event_trigger "
-            "function with kwargs=) check every listener's dict exactly, twice; distinct by case")
+            "function with kwargs=) check every listener's dict exactly, twice; the awaited channel is an event type, a "
+            "webhook id or an mqtt topic (deliveries through the registered HA handlers); with again=1..2 the same call is "
+            "repeated by a fresh task 10 ms after the previous one is over and every call is judged on its own against "
+            "Model and Spec (its own pre-history, history, ledger baseline); distinct by case")
     requires = "From PV Require Import Trig.WaitUntil Trig.WaitUntilCheck."
-    case_type = "wcase"
-    check_model = "wcase_model_ok pv_cfg"
-    check_spec = "wcase_spec_ok"
-    attrib = "wcase_attrib pv_cfg"
-    explain = "wcase_explain pv_cfg"
-    shard_size = 150
+    case_type = "list wcase"
+    check_model = "wcases_model_ok pv_cfg"
+    check_spec = "wcases_spec_ok"
+    attrib = "wcases_attrib pv_cfg"
+    explain = "wcases_explain pv_cfg"
+    shard_size = 120
 
     def budget(self, tier):
         return 1100 if tier == "quick" else 9000
 
     def prelude(self, ctx, findings, witness_terms):
-        return cfg_prelude(SWITCHES, findings, witness_terms, "wcase_spec_ok")
+        return cfg_prelude(SWITCHES, findings, witness_terms, "wcases_spec_ok")
 
     def generate(self, ctx, budget, focus=None):
         rng = ctx.rng
@@ -284,6 +294,18 @@ class WaitStream(Stream):
                 for flt in (False, True):
                     cases.append(_mk(sub, None, None, {"filter": flt}, None, [[-1000, "E1"]], [[1000, "E0"], [2000, "E1"], [3000, "E1"]], others=others))
                 cases.append(_mk(sub, None, None, {"filter": True}, 2500, [], [[1000, "E0"]], 1125, others=others))
+            # the awaited channel is a webhook id / an mqtt topic; the same call repeated by fresh tasks (what one call
+            # leaves behind must not matter to the next)
+            for chan in ("event", "webhook", "mqtt"):
+                for flt in (False, True):
+                    for to in (None, 1500):
+                        cases.append(_mk(sub, None, None, {"filter": flt, "chan": chan}, to, [[-1000, "E1"]],
+                                         [[1000, "E0"], [2000, "E1"], [3000, "E1"], [4000, "EX"], [6000, "E1"]], again=2))
+                cases.append(_mk(sub, None, [1250], {"filter": True, "chan": chan}, None, [], [[1000, "E0"], [3000, "E1"]], 1125, again=1))
+                cases.append(_mk(sub, _st(False, "F"), None, {"filter": False, "chan": chan}, None, [], [[2000, "T"], [3000, "E1"]], 625, "unique", again=2))
+            cases.append(_mk(sub, None, None, {"filter": False, "chan": "mqtt"}, None, [], [[1000, "E1"]], badexpr="webhook", again=1))
+            for cn in (None, False):
+                cases.append(_mk(sub, _st(cn, "F", 1750, 1500), [3250], None, 4500, [], [[1600, "T"], [2000, "F"], [4600, "T"], [9000, "F"], [11000, "T"]], again=2))
             # exceptions in a condition
             cases.append(_mk(sub, _st(None, "X"), None, {"filter": True}, None, [], h_event))
             cases.append(_mk(sub, _st(None, "F"), None, {"filter": True}, 2500, [], [[1000, "X"]]))
@@ -304,29 +326,45 @@ class WaitStream(Stream):
         return [o for r in res for o in r]
 
     def to_coq(self, case, obs):
+        """one wcase per call of the scenario: occurrences before the call instant t2 are its pre-history, the others
+        (and a later cancellation) its history, all times relative to t2"""
         st = case.get("st")
-        args = ("{| a_state := %s; a_cn := %s; a_hold := %s; a_hf := %s; a_times := %s; a_event := %s; a_timeout := %s; "
-                "a_badexpr := %s; a_shared := %s |}" % (
-            q.boolean(st is not None),
-            q.option(None if (st is None or st.get("cn") is None) else q.boolean(st["cn"])),
-            q.option(None if (st is None or st.get("hold") is None) else q.Z(st["hold"])),
-            q.option(None if (st is None or st.get("hf") is None) else q.Z(st["hf"])),
-            q.option(None if case.get("tt") is None else q.lst(q.Z(o) for o in case["tt"])),
-            q.boolean(case.get("ev") is not None),
-            q.option(None if case.get("to") is None else q.Z(case["to"])),
-            q.boolean(bool(case.get("badexpr"))), q.boolean(bool(case.get("others")))))
+        def mkargs(shared):
+            return ("{| a_state := %s; a_cn := %s; a_hold := %s; a_hf := %s; a_times := %s; a_event := %s; a_timeout := %s; "
+                    "a_badexpr := %s; a_shared := %s |}" % (
+                        q.boolean(st is not None),
+                        q.option(None if (st is None or st.get("cn") is None) else q.boolean(st["cn"])),
+                        q.option(None if (st is None or st.get("hold") is None) else q.Z(st["hold"])),
+                        q.option(None if (st is None or st.get("hf") is None) else q.Z(st["hf"])),
+                        q.option(None if case.get("tt") is None else q.lst(q.Z(o) for o in case["tt"])),
+                        q.boolean(case.get("ev") is not None),
+                        q.option(None if case.get("to") is None else q.Z(case["to"])),
+                        q.boolean(bool(case.get("badexpr"))), q.boolean(shared)))
+
+        occs = []
         k = 0
-        pre = []
-        for t, kind in case.get("pre") or []:
+        for t, kind in (case.get("pre") or []):
             k += 1
-            pre.append(f"({q.Z(t)}, {_occ(case, k, kind)})")
-        hist = []
-        for t, kind in case.get("hist") or []:
+            occs.append((t, 0, k, _occ(case, k, kind)))
+        for t, kind in (case.get("hist") or []):
             k += 1
-            hist.append((t, 1, f"({q.Z(t)}, {_occ(case, k, kind)})"))
+            occs.append((t, 1, k, _occ(case, k, kind)))
         if case.get("cancel") is not None:
-            hist.append((case["cancel"], 2, f"({q.Z(case['cancel'])}, OCancel)"))
-        hist.sort(key=lambda x: (x[0], x[1]))
+            occs.append((case["cancel"], 2, 0, "OCancel"))
+        occs.sort(key=lambda x: (x[0], x[1], x[2]))
+        init = SRES[st["init"]] if st else "SFalse"
+        terms = []
+        for o in [obs] + list(obs.get("more") or []):
+            t2 = int(o.get("t2") or 0)
+            pre = [f"({q.Z(t - t2)}, {term})" for (t, ph, _k, term) in occs if term != "OCancel" and (t < t2 or (t == t2 and ph == 0))]
+            hist = [f"({q.Z(t - t2)}, {term})" for (t, ph, _k, term) in occs if t > t2 or (t == t2 and ph > 0)]
+            terms.append("{| wc_legacy := %s; wc_args := %s; wc_init := %s; wc_pre := %s; wc_hist := %s; wc_obs := %s |}" % (
+                q.boolean(case["sub"] == "legacy"), mkargs(bool(o.get("shared"))), init, q.lst(pre), q.lst(hist),
+                self._obs(o)))
+        return q.lst(terms)
+
+    @staticmethod
+    def _obs(obs):
         dict_ok = bool(obs.get("dict_ok"))
         ex = obs.get("exit")
         if ex == "ret":
@@ -353,14 +391,11 @@ class WaitStream(Stream):
             x, dict_ok = "XExc EOther", False
         leak = obs.get("leak")
         leak_end = obs.get("leak_end") or [99, 99, 99, 99]
-        o = "{| o_exit := %s; o_time := %s; o_dict_ok := %s; o_leak := %s; o_leak_end := %s; o_late := %s; o_other_ok := %s |}" % (
+        return "{| o_exit := %s; o_time := %s; o_dict_ok := %s; o_leak := %s; o_leak_end := %s; o_late := %s; o_other_ok := %s |}" % (
             x, q.Z(int(obs.get("t") or 0)), q.boolean(dict_ok),
             q.option(None if leak is None else "(" + ", ".join(q.Z(int(v)) for v in leak) + ")"),
             "(" + ", ".join(q.Z(int(v)) for v in leak_end) + ")",
             q.N(int(obs.get("late") or 0)), q.boolean(not obs.get("other")))
-        init = SRES[st["init"]] if st else "SFalse"
-        return "{| wc_legacy := %s; wc_args := %s; wc_init := %s; wc_pre := %s; wc_hist := %s; wc_obs := %s |}" % (
-            q.boolean(case["sub"] == "legacy"), args, init, q.lst(pre), q.lst(h[2] for h in hist), o)
 
     def nontrivial(self, case, obs):
         return bool(case.get("hist")) or case.get("cancel") is not None
@@ -369,6 +404,10 @@ class WaitStream(Stream):
         parts = [case["sub"]]
         if case.get("others"):
             parts.append("conc")
+        if case.get("again"):
+            parts.append("x%d" % (1 + len(obs.get("more") or [])))
+        if (case.get("ev") or {}).get("chan") not in (None, "event"):
+            parts.append(case["ev"]["chan"])
         if (case.get("st") or {}).get("hf") is not None:
             parts.append("hf")
         for key in ("st", "tt", "ev"):
@@ -405,8 +444,8 @@ class C15(Prop):
         "no two candidates at the same instant in generated cases (the Spec lets a fixed instant win a tie)",
         "no other pyscript listener on the awaited event type (the legacy bus listener is shared per event type)",
     ]
-    partial_note = ("mqtt/webhook deliveries, 'any change' state names and cron/period time specifications are not modelled here "
-                    "(any-change timing: C05; mqtt/webhook delivery: C08; time specifications: C06)")
+    partial_note = ("'any change' state names and cron/period time specifications are not modelled here "
+                    "(any-change timing: C05; time specifications: C06); webhook methods/local_only and mqtt wildcards/encodings: C08")
 
     def translate(self, ctx):
         return {"Gen/WaitConsts.v": gen_wait_consts()}
